@@ -545,6 +545,34 @@ func checkAttachmentTail(p *Program, r *Result) {
 		if loadOfFieldIface(a[0], "LimitedReader", "R") && loadOfField(a[1], "LimitedReader", "N") {
 			ok = true
 		}
+		// skipReader(l.reader, unread) where unread is what the limited reader has left, or - on the path without a
+		// callback, where nothing was consumed - the whole record length
+		var amountOK func(v ssa.Value, depth int) bool
+		amountOK = func(v ssa.Value, depth int) bool {
+			v = stripConv(v)
+			if depth > 4 {
+				return false
+			}
+			if loadOfField(v, "LimitedReader", "N") {
+				return true
+			}
+			if c, isCall := v.(*ssa.Call); isCall && isDecodeCall(c) {
+				return true // the record length as decoded from the record header
+			}
+			if ph, isPhi := v.(*ssa.Phi); isPhi {
+				for _, e := range ph.Edges {
+					if !amountOK(e, depth+1) {
+						return false
+					}
+				}
+				return len(ph.Edges) > 0
+			}
+			return false
+		}
+		readerOK := loadOfFieldIface(a[0], "LimitedReader", "R") || loadOfFieldIface(a[0], "Lexer", "reader") || loadOfField(a[0], "Lexer", "reader")
+		if _, isPhi := stripConv(a[1]).(*ssa.Phi); isPhi && readerOK && amountOK(a[1], 0) {
+			ok = true
+		}
 	}
 	if ok {
 		r.held("C11.c", funcName(fn), "skip of the unread attachment remainder", p.pos(fn.Pos()), "skipReader(limitReader.R, limitReader.N) before the next record")
